@@ -56,6 +56,22 @@ def WFBlock (b : Block) : Prop :=
 
 def WF (w : Nat → Block) : Prop := ∀ n, WFBlock (w n)
 
+theorem nodup_fst_unique : ∀ {l : List (String × Nat)}, (l.map (·.1)).Nodup →
+    ∀ f a c, (f, a) ∈ l → (f, c) ∈ l → a = c
+  | [], _, _, _, _, h, _ => by simp at h
+  | p :: l, hn, f, a, c, h1, h2 => by
+    simp only [List.map_cons, List.nodup_cons, List.mem_map, not_exists, not_and] at hn
+    rcases List.mem_cons.mp h1 with e1 | h1' <;> rcases List.mem_cons.mp h2 with e2 | h2'
+    · rw [← e1] at e2; exact (Prod.mk.inj e2).2.symm
+    · exact absurd (by rw [← e1]) (hn.1 (f, c) h2')
+    · exact absurd (by rw [← e2]) (hn.1 (f, a) h1')
+    · exact nodup_fst_unique hn.2 f a c h1' h2'
+
+/-- decidable sufficient condition for `WFBlock` (used for concrete examples) -/
+theorem wfBlock_of_nodup (b : Block) (h1 : (b.files.map (·.1)).Nodup)
+    (h2 : ∀ p ∈ b.files, p.1 ∉ reserved) : WFBlock b :=
+  ⟨nodup_fst_unique h1, fun f sz h => h2 (f, sz) h⟩
+
 def Visible (s : Bucket) (n : Nat) : Prop := (get s (n, metaName)).isSome = true
 
 instance (s : Bucket) (n : Nat) : Decidable (Visible s n) := by unfold Visible; infer_instance
